@@ -57,3 +57,21 @@ pub open spec fn list_targets(rs: Seq<DnsRecordIntf>, n: int, hl: Seq<char>) -> 
 pub open spec fn targets(srv: HashMap<String, Vec<DnsRecordIntf>>, n: int, hl: Seq<char>) -> bool {
     exists|e: int| 0 <= e < n && list_targets((#[trigger] srv.entries()[e]).1@, srv.entries()[e].1@.len() as int, hl)
 }
+// `map.iter().filter_map(|(k, v)| F).collect::<Vec<String>>()`: F's Some results in iteration order
+#[verifier::external_body]
+pub fn vx_filter_map_collect<V, F: Fn(&String, &V) -> Option<String>>(m: &HashMap<String, V>, f: F) -> (r: Vec<String>)
+    requires forall|k: &String, v: &V| #[trigger] f.requires((k, v)),
+    ensures
+        // every listed string is F's answer for some entry; an entry F answered None for contributes nothing (the
+        // converse - every Some answer is listed - is stated per entry)
+        forall|j: int| 0 <= j < r@.len() ==> listed_by(m, f, #[trigger] r@[j]),
+        forall|e: int| 0 <= e < m.entries().len() ==> answered(m, f, e, r@),
+{ unimplemented!() }
+#[verifier::external_body]
+pub fn vx_string_eq2(a: String, b: &String) -> (r: bool) ensures r == (a@ == b@) { unimplemented!() }
+pub open spec fn listed_by<V, F: Fn(&String, &V) -> Option<String>>(m: &HashMap<String, V>, f: F, x: String) -> bool {
+    exists|e: int| 0 <= e < m.entries().len() && f.ensures((&(#[trigger] m.entries()[e]).0, &m.entries()[e].1), Some(x))
+}
+pub open spec fn answered<V, F: Fn(&String, &V) -> Option<String>>(m: &HashMap<String, V>, f: F, e: int, r: Seq<String>) -> bool {
+    f.ensures((&m.entries()[e].0, &m.entries()[e].1), None::<String>) || exists|j: int| 0 <= j < r.len() && f.ensures((&m.entries()[e].0, &m.entries()[e].1), Some(#[trigger] r[j]))
+}
